@@ -5,7 +5,7 @@ use crate::harness::*;
 use crate::scenario::*;
 
 #[derive(Clone, Copy, PartialEq, Debug)]
-enum Ty { None, Str, List, Set, Hash, ZSet }
+enum Ty { None, Str, List, Set, Hash, ZSet, Stream }
 
 struct G { ty: Ty, deadline: Option<u64> }
 
@@ -19,6 +19,7 @@ fn create(r: &mut Rng, k: usize, ty: Ty, sc: &mut Scenario) {
         Ty::Set => vec![b("SADD"), key(k), b("a"), b("b"), b("c")],
         Ty::Hash => vec![b("HSET"), key(k), b("f1"), b("1"), b("f2"), b("x")],
         Ty::ZSet => vec![b("ZADD"), key(k), b("1"), b("a"), b("2"), b("b")],
+        Ty::Stream => vec![b("XADD"), key(k), b("1-1"), b("f"), b("v")],
         Ty::None => return,
     };
     sc.steps.push(Step::Cmd { c: 0, a, split: vec![] });
@@ -31,6 +32,8 @@ fn modifier(r: &mut Rng, k: usize, ty: Ty) -> Vec<B> {
         Ty::Set => match r.below(3) { 0 => vec![b("SADD"), key(k), b(&format!("m{}", r.below(5)))], 1 => vec![b("SREM"), key(k), b(*r.pick(&["a", "b", "c"]))], _ => vec![b("SPOP"), key(k)] },
         Ty::Hash => match r.below(3) { 0 => vec![b("HSET"), key(k), b("f3"), b("y")], 1 => vec![b("HDEL"), key(k), b(*r.pick(&["f1", "f2", "f3"]))], _ => vec![b("HINCRBY"), key(k), b("f1"), b("2")] },
         Ty::ZSet => match r.below(4) { 0 => vec![b("ZADD"), key(k), b("3"), b("c")], 1 => vec![b("ZREM"), key(k), b(*r.pick(&["a", "b", "c"]))], 2 => vec![b("ZINCRBY"), key(k), b("1.5"), b("a")], _ => vec![b("ZPOPMIN"), key(k)] },
+        // (explicit ids: an automatic id would make the reply depend on the wall clock, which is C15's subject)
+        Ty::Stream => match r.below(3) { 0 => vec![b("XADD"), key(k), b(&format!("{}-1", 2 + r.below(50))), b("f"), b("w")], 1 => vec![b("XDEL"), key(k), b("1-1")], _ => vec![b("XTRIM"), key(k), b("MAXLEN"), b("1")] },
     }
 }
 
@@ -50,6 +53,7 @@ fn reader(r: &mut Rng, k: usize, ty: Ty) -> Vec<B> {
             Ty::Set => match r.below(3) { 0 => vec![b("SCARD"), key(k)], 1 => vec![b("SMEMBERS"), key(k)], _ => vec![b("SISMEMBER"), key(k), b("a")] },
             Ty::Hash => match r.below(3) { 0 => vec![b("HLEN"), key(k)], 1 => vec![b("HGETALL"), key(k)], _ => vec![b("HGET"), key(k), b("f1")] },
             Ty::ZSet => match r.below(3) { 0 => vec![b("ZCARD"), key(k)], 1 => vec![b("ZRANGE"), key(k), b("0"), b("-1"), b("WITHSCORES")], _ => vec![b("ZSCORE"), key(k), b("a")] },
+            Ty::Stream => match r.below(3) { 0 => vec![b("XLEN"), key(k)], 1 => vec![b("XRANGE"), key(k), b("-"), b("+")], _ => vec![b("XREAD"), b("STREAMS"), key(k), b("0-0")] },
         },
     }
 }
@@ -66,7 +70,7 @@ pub fn gen(seed: u64, _idx: u64, tier: Tier) -> Scenario {
     let nk = 5usize;
     let mut g: Vec<G> = (0..nk).map(|_| G { ty: Ty::None, deadline: None }).collect();
     let mut t: u64 = 0; // virtual ns since start (commands execute at the instant of the last advance)
-    let types = [Ty::Str, Ty::List, Ty::Set, Ty::Hash, Ty::ZSet];
+    let types = [Ty::Str, Ty::List, Ty::Set, Ty::Hash, Ty::ZSet, Ty::Stream];
     let n = match tier { Tier::Quick => r.range(20, 110), Tier::Thorough => r.range(20, 160) };
     for _ in 0..n {
         let k = r.below(nk as u64) as usize;
